@@ -246,3 +246,59 @@ Proof. intros H. unfold zerosZ. apply firstn_zerosN. lia. Qed.
 
 Lemma len_zerosZ n : 0 <= n -> len (zerosZ n) = n.
 Proof. intros H. unfold len. rewrite zerosZ_length. lia. Qed.
+
+(* ---- clearing table slots; prefixes of duplicate-free lists ---- *)
+Lemma nthZ_clear_from : forall n t i k, 0 <= i -> i + Z.of_nat n <= len t ->
+  nthZ (FileIO.clear_from n t i) k = if (i <=? k) && (k <? i + Z.of_nat n) then 0 else nthZ t k.
+Proof.
+  induction n as [|n IH]; intros t i k Hi Hl.
+  - cbn [FileIO.clear_from]. destruct (Z.leb_spec i k); destruct (Z.ltb_spec k (i + Z.of_nat 0)); cbn [andb]; try reflexivity; lia.
+  - cbn [FileIO.clear_from]. rewrite IH by (try lia; unfold len in *; rewrite updZ_length; lia).
+    destruct (Z.leb_spec (i + 1) k); destruct (Z.ltb_spec k (i + 1 + Z.of_nat n)); destruct (Z.leb_spec i k); destruct (Z.ltb_spec k (i + Z.of_nat (S n))); cbn [andb]; try lia; try reflexivity.
+    + apply nthZ_updZ_other. lia.
+    + assert (k = i) by lia. subst k. apply nthZ_updZ_same. unfold len in Hl. lia.
+    + apply nthZ_updZ_other. lia.
+Qed.
+
+Lemma clear_from_length : forall n t i, length (FileIO.clear_from n t i) = length t.
+Proof. induction n as [|n IH]; intros t i; cbn [FileIO.clear_from]; [reflexivity|]. rewrite IH. apply updZ_length. Qed.
+
+Lemma nthZ_clear_range t first last k : 0 <= first -> last < len t ->
+  nthZ (FileIO.clear_range t first last) k = if (first <=? k) && (k <=? last) then 0 else nthZ t k.
+Proof.
+  intros Hf Hl. unfold FileIO.clear_range. destruct (Z.ltb_spec last first) as [Hlt|Hge].
+  - replace (Z.to_nat (last - first + 1)) with 0%nat by lia. cbn [FileIO.clear_from].
+    destruct (Z.leb_spec first k); destruct (Z.leb_spec k last); cbn [andb]; try reflexivity; lia.
+  - rewrite nthZ_clear_from by lia. rewrite Z2Nat.id by lia.
+    destruct (Z.leb_spec first k); destruct (Z.leb_spec k last); destruct (Z.ltb_spec k (first + (last - first + 1))); cbn [andb]; try reflexivity; lia.
+Qed.
+
+(* a table window whose slots from `first` on are cleared is the window of the list cut at that slot *)
+Lemma clear_window (L : list Z) b first last : 0 <= b -> 0 <= first <= last + 1 -> last < 72 -> len L <= b + last + 1 ->
+  FileIO.clear_range (subZ L b 72) first last = subZ (firstn (Z.to_nat (b + first)) L) b 72.
+Proof.
+  intros Hb Hf Hl Hend. apply list_ext.
+  - unfold FileIO.clear_range. rewrite clear_from_length, !subZ_length. reflexivity.
+  - intros i Hi. unfold len, FileIO.clear_range in Hi. rewrite clear_from_length, subZ_length in Hi.
+    rewrite nthZ_clear_range by (unfold len; rewrite ?subZ_length; lia). rewrite !nthZ_subZ by lia.
+    destruct (Z.leb_spec first i); destruct (Z.leb_spec i last); cbn [andb].
+    + symmetry. apply nthZ_firstn_oob. lia.
+    + rewrite nthZ_firstn_oob by lia. apply nthZ_oob. lia.
+    + symmetry. apply nthZ_firstn. lia.
+    + symmetry. apply nthZ_firstn. lia.
+Qed.
+
+Lemma in_firstn {A} (x : A) n l : In x (firstn n l) -> In x l.
+Proof. revert l. induction n as [|n IH]; intros l H; [contradiction|]. destruct l as [|y l]; [contradiction|]. destruct H as [->|H]; [left; reflexivity|right; apply IH; exact H]. Qed.
+
+Lemma nodup_firstn {A} n (l : list A) : NoDup l -> NoDup (firstn n l).
+Proof.
+  revert l. induction n as [|n IH]; intros l H; [constructor|]. destruct l as [|y l]; [constructor|]. inversion H; subst. cbn [firstn].
+  constructor; [intros Hc; apply in_firstn in Hc; contradiction|apply IH; assumption].
+Qed.
+
+Lemma window_firstn_full (L : list Z) b n : 0 <= b -> b + 72 <= n -> subZ (firstn (Z.to_nat n) L) b 72 = subZ L b 72.
+Proof.
+  intros Hb Hn. apply list_ext; [rewrite !subZ_length; reflexivity|]. intros i Hi. unfold len in Hi. rewrite subZ_length in Hi.
+  rewrite !nthZ_subZ by lia. apply nthZ_firstn. lia.
+Qed.
